@@ -44,6 +44,16 @@ def apply(toks, au, opts):
             out += _call(f"vx_parse_{ty}", [recv], ws0)
             i += 9
             continue
+        # X.contains("literal")  ->  vx_str_contains(&X, "literal")    (str::contains is generic over Pattern)
+        if is_p(t, ".") and is_id(toks[i + 1], "contains") and is_p(toks[i + 2], "(") and toks[i + 3].kind == "str" and is_p(toks[i + 4], ")"):
+            s = _expr_start(out)
+            recv = out[s:]
+            ws0 = recv[0].ws
+            del out[s:]
+            au.note("R", 'X.contains("lit") -> vx_str_contains(&X, "lit")')
+            out += _call("vx_str_contains", [[Tok("p", "&", "")] + [_w(recv[0], "")] + recv[1:], [toks[i + 3]]], ws0)
+            i += 5
+            continue
         # Bytes::from(E)  ->  Bytes::vx_from_vec(E)   (From<Vec<u8>> for Bytes)
         if is_id(t, "Bytes") and texts(toks, i + 1, 4) == [":", ":", "from", "("]:
             au.note("R", "Bytes::from(vec) -> Bytes::vx_from_vec(vec)")
